@@ -19,7 +19,7 @@ Extraction "model.ml"
   w_div_I
   modin_I modin_ul modin_l mod_I mod_l mod_ul mod_i mod_u
   op_modeq_I op_modeq_ul op_modeq_l op_modeq_u op_modeq_i op_modeq_T
-  op_mod_I op_mod_ul op_mod_l op_mod_u op_mod_i op_mod_us op_mod_Ts op_mod_d w_mod_I
+  op_mod_I op_mod_ul op_mod_l op_mod_u op_mod_i op_mod_us op_mod_Ts op_mod_Tf round53 op_mod_d op_mod_dx w_mod_I
   dom_div dom_divin dom_mod dom_modin dom_divmod dom_divexact dom_quo dom_quo_floor dom_rem
   dom_quoin dom_remin dom_quoRem dom_isDivisor.
 Cd "..".
